@@ -66,6 +66,10 @@ func propC16(c *Ctx, r *Report) {
 	r.rule("C16/bank-row-always-filled", 1, "the bank pass records used and requested for every block it runs in")
 	rulePassThrough(c, r, "C16/bank-row-always-filled", c.fn("node.Pegnetd.recordPegnetRequests"), "pegnet.Pegnet.UpdateBankEntry", "from V4 on the bank row of the block is filled in on every successful pass, also with no request", "the row keeps its -1/-1 'to be filled' marker, so the bank ledger does not record the amount used and requested for that block")
 	rulePayoutsPure(c, r, "C16/payouts-pure")
+	r.rule("C16/bank-update-columns", 1, "the bank row's columns receive the matching values")
+	ruleBankUpdateColumns(c, r, buildSQLCat(c), "C16/bank-update-columns")
+	r.rule("C16/request-index", 1, "a PEG request is filed under its position in the batch")
+	ruleRequestIndex(c, r, "C16/request-index")
 	r.rule("C16/settlement-loops-complete", 2, "every request is registered and every payout settled")
 	ruleLoopCompletes(c, r, "C16/settlement-loops-complete", c.fn("node.Pegnetd.recordPegnetRequests"), "pegnet.Pegnet.AddToBalance", "every payout entry is credited and refunded")
 	ruleLoopCompletes(c, r, "C16/settlement-loops-complete", c.fn("node.Pegnetd.recordPegnetRequests"), "conversions.ConversionSupplySet.AddConversion", "every PEG request of the batches is registered")
@@ -248,12 +252,7 @@ func propC16(c *Ctx, r *Report) {
 	acc.report(c, r, "C16/era-table", rb)
 
 	// the settled list is not carried over
-	r.rule("C16/settle-once", 1, "requests settled for one height are not settled again for the next")
-	for _, ci := range findCalls(hold, "node.Pegnetd.recordPegnetRequests") {
-		if l := innermostLoop(hold, ci.Block()); l != nil {
-			settleOnce(c, r, "C16/settle-once", hold, ci, l)
-		}
-	}
+	ruleSettleOnceFam(c, r, "C16/settle-once")
 
 	// provenance of the second-pass credits
 	r.rule("C16/second-pass-provenance", 2, "yield, refund, history and bank record come from the same payout values")
